@@ -45,7 +45,7 @@ Proof.
     simpl in H; destr H; injection H as <- <-; try exact W; wext W.
 Qed.
 
-Lemma wstep_add s pub hon s' evs : WInv s -> step s (LAdd pub hon) = Some (s', evs) -> WInv s'.
+Lemma wstep_add s pub hon sub s' evs : WInv s -> step s (LAdd pub hon sub) = Some (s', evs) -> WInv s'.
 Proof.
   intros W H. unfold step in H. destruct (hlock s) eqn:HL; [discriminate|].
   cbv zeta in H. simpl fix14 in H. simpl hadded in H. simpl wat in H.
